@@ -3,8 +3,11 @@ package c05
 
 import (
 	"bytes"
+	"crypto/rand"
 	"encoding/hex"
+	"errors"
 	"fmt"
+	"runtime"
 	"sync"
 	"testing"
 
@@ -23,9 +26,10 @@ type Case struct {
 	Key   string `json:"key"`
 	Usage uint32 `json:"usage"`
 	Plain string `json:"plain"`
-	Conf  string `json:"confounder"`     // used by the reference when it encrypts
-	Dir   string `json:"dir"`            // lib2ref | ref2lib | fresh
-	Then  int32  `json:"then,omitempty"` // afterwards run both directions with the same key octets and usage under this sibling etype of equal key length, then the first etype again
+	Conf  string `json:"confounder"`      // used by the reference when it encrypts
+	Fault int    `json:"fault,omitempty"` // fresh-faulty-source: octets the random source delivers before it fails
+	Dir   string `json:"dir"`             // lib2ref | ref2lib | fresh | fresh-concurrent | fresh-faulty-source
+	Then  int32  `json:"then,omitempty"`  // afterwards run both directions with the same key octets and usage under this sibling etype of equal key length, then the first etype again
 }
 
 func usageClass(u uint32) string {
@@ -191,11 +195,60 @@ func eval1(c Case) evid.Verdict {
 					return evid.Fail(sig, "reference cannot decrypt a concurrently encrypted message: %v", err)
 				}
 			}
+		case "fresh-faulty-source":
+			// fault injection: the process's random source delivers c.Fault octets (fewer than a confounder) and then
+			// reports an error. Refusing to encrypt is fine; two equal ciphertexts for one plaintext are not.
+			if c.Fault < 0 || c.Fault >= ref.ConfounderLen(c.EType) {
+				return evid.Fail("harness", "fault after %d octets does not starve a confounder of etype %d", c.Fault, c.EType)
+			}
+			if !randReaderMayFail() {
+				return evid.Pass() // from go1.24 on a failing crypto/rand.Reader aborts the process by design
+			}
+			et, err := crypto.GetEtype(c.EType)
+			if err != nil {
+				return evid.Fail(sig, "GetEtype: %v", err)
+			}
+			old := rand.Reader
+			defer func() { rand.Reader = old }()
+			rand.Reader = &faultySource{left: c.Fault}
+			_, c1, err1 := et.EncryptMessage(key, plain, c.Usage)
+			rand.Reader = &faultySource{left: c.Fault}
+			_, c2, err2 := et.EncryptMessage(key, plain, c.Usage)
+			rand.Reader = old
+			if err1 == nil && err2 == nil && bytes.Equal(c1, c2) {
+				return evid.Fail("confounder-faulty-source:"+fmt.Sprint(c.EType), "the random source failed after %d octets, yet both encryptions returned no error and the same ciphertext %x", c.Fault, c1)
+			}
 		default:
 			return evid.Fail("harness", "bad dir %q", c.Dir)
 		}
 		return evid.Pass()
 	})
+}
+
+// faultySource delivers a fixed octet pattern and reports an error once it has run dry.
+type faultySource struct{ left int }
+
+func (f *faultySource) Read(p []byte) (int, error) {
+	n := 0
+	for n < len(p) && f.left > 0 {
+		p[n] = 0xd0 + byte(f.left)
+		n++
+		f.left--
+	}
+	if n < len(p) {
+		return n, errors.New("c05: injected fault: random source unavailable")
+	}
+	return n, nil
+}
+
+// randReaderMayFail reports whether this toolchain lets crypto/rand.Read return the error of a replaced Reader
+// (up to go1.23; later releases treat it as fatal).
+func randReaderMayFail() bool {
+	var major, minor int
+	if _, err := fmt.Sscanf(runtime.Version(), "go%d.%d", &major, &minor); err != nil {
+		return false
+	}
+	return major == 1 && minor <= 23
 }
 
 func lenClass(et int32, n int) string {
@@ -304,6 +357,22 @@ func TestProp(t *testing.T) {
 			count(r, c)
 			r.Violation("grid", c, Eval(c))
 		}
+	}
+	// injected fault: the random source runs dry inside the confounder (serial: the source is process-wide)
+	r.Rule("fresh-faulty-source: for every etype and every count of octets below the confounder length, crypto/rand.Reader is replaced by a source that fails after that many octets; two encryptions of one plaintext must not both succeed with equal ciphertexts")
+	if randReaderMayFail() {
+		for _, et := range ref.ETypes {
+			for f := 0; f < ref.ConfounderLen(et); f++ {
+				lbl := fmt.Sprintf("c05/fault/%d/%d", et, f)
+				c := Case{EType: et, Usage: kgen.Usages[(f+int(r.Seed()))%len(kgen.Usages)], Dir: "fresh-faulty-source", Fault: f,
+					Key: hex.EncodeToString(ref.RandomKey(et, kgen.DetBytes(r.Seed(), lbl+"/k", 32))), Plain: hex.EncodeToString(kgen.DetBytes(r.Seed(), lbl+"/p", 3+f*5))}
+				count(r, c)
+				r.Violation("grid", c, Eval(c))
+			}
+		}
+		r.Exhaustive("etype x every fault position inside the confounder")
+	} else {
+		r.Label("fresh-faulty-source:skipped (toolchain aborts on a failing random source)")
 	}
 	if r.Thorough() {
 		r.Exhaustive("etype x length 0..130 x usage set x direction (keys/contents sampled)")
